@@ -71,9 +71,12 @@ RECURSIVE Join(_, _)
 Join(ts, sep) == IF ts = <<>> THEN "" ELSE IF Len(ts) = 1 THEN ts[1] ELSE ts[1] \o sep \o Join(Tail(ts), sep)
 TokSeq(S, rev) == LET idx == IF rev THEN <<5, 4, 3, 2, 1>> ELSE <<1, 2, 3, 4, 5>> IN
                   SelectSeq([i \in 1..5 |-> Tokens[idx[i]]], LAMBDA t : \E j \in S : Tokens[j] = t)
-\* rendering 0: "a, b"; 1: reversed order, no spaces; 2: positive weights and extra spaces
+\* rendering 0: "a, b"; 1: reversed order, no spaces; 2: positive weights and extra spaces; 3: upper / mixed case tokens
+\* (content-coding names are case-insensitive: the client has LISTED gzip when it writes GZIP)
+UpTok(t) == CASE t = "gzip" -> "GZIP" [] t = "br" -> "Br" [] t = "deflate" -> "DEFLATE" [] t = "identity" -> "Identity" [] OTHER -> "ZStd"
 Render(S, rd) ==
     CASE rd = 0 -> Join(TokSeq(S, FALSE), ", ")
+      [] rd = 3 -> Join([i \in 1..Len(TokSeq(S, FALSE)) |-> UpTok(TokSeq(S, FALSE)[i])], ", ")
       [] rd = 1 -> Join(TokSeq(S, TRUE), ",")
       [] OTHER -> Join([i \in 1..Len(TokSeq(S, FALSE)) |-> TokSeq(S, FALSE)[i] \o ";q=0." \o (IF i % 2 = 0 THEN "5" ELSE "9")], " ,  ")
 
